@@ -40,7 +40,9 @@ CHECKS = {
            "invariant text is matched (absent separator classes) and is the only matched path, incl. its case variants.",
     'C12': "Proved (all token trees, combinators included): has_root = Always => every path of the documented language begins with a separator. Tie: has_root(), "
            "has_semantic_literals(). Oracle: matched paths of always-rooted patterns; globs never Sometimes (one known class); `.`/`..` components at any depth.",
-    'C17': "Proved so far: the repaired parse-error span covers exactly the character at the location. Tie: every error and capture span vs the span-annotated parser model. "
+    'C17': "Proved (all strings): every span of the token tree of an expression that parses, every capture span, every location of a parse error and the span of every "
+           "rule error delimit whole characters of the expression (within bounds, on character boundaries) - by induction over the fuelled model of the nom grammar and "
+           "the breadth-first rule checker. Tie: every error and capture span vs the span-annotated parser model. "
            "Oracle: bounds and character boundaries of every span, capture slices re-parse to the captured token kind, also after partition.",
     'C18': "Proved: the literal parser reads escape(s) back as s for separator-free backslash-free s; every parser-special character except `/` `\\` is a meta-character; "
            "identity on meta-free strings. Tie: escape() and the three character tables over all 1,114,112 code points. Oracle: Glob::new(escape(s)) text/match/mutants.",
